@@ -370,3 +370,92 @@ func dumpT(sb *strings.Builder, n datamodel.Node) {
 		tok(sb, lib.Dump(n))
 	}
 }
+
+// dumpLive is dumpTyped plus consistency reads of the same node: Length() against what the
+// iterator yields, and a lookup (by key / by index) of every entry against the iterated value.
+// typed = a type-level node (a struct's Length counts its absent optional fields too).
+func dumpLive(n datamodel.Node, typed bool) string {
+	var sb strings.Builder
+	dumpL(&sb, n, typed)
+	return sb.String()
+}
+
+func dumpL(sb *strings.Builder, n datamodel.Node, typed bool) {
+	if n == nil {
+		tok(sb, "!nil")
+		return
+	}
+	switch n.Kind() {
+	case datamodel.Kind_List:
+		it := n.ListIterator()
+		if it == nil {
+			tok(sb, "!nolistiter")
+			return
+		}
+		var parts []string
+		i := int64(0)
+		for !it.Done() {
+			_, v, err := it.Next()
+			if err != nil {
+				parts = append(parts, "!listnext")
+				break
+			}
+			d := dumpLive(v, typed)
+			if lv, err := n.LookupByIndex(i); err != nil || dumpLive(lv, typed) != d {
+				d += " !lookup"
+			}
+			parts = append(parts, d)
+			i++
+		}
+		if n.Length() != i {
+			parts = append(parts, "!len")
+		}
+		tok(sb, fmt.Sprintf("a%d", i))
+		for _, p := range parts {
+			tok(sb, p)
+		}
+	case datamodel.Kind_Map:
+		it := n.MapIterator()
+		if it == nil {
+			tok(sb, "!nomapiter")
+			return
+		}
+		var parts []string
+		cnt, yielded := 0, int64(0)
+		for !it.Done() {
+			k, v, err := it.Next()
+			if err != nil {
+				parts = append(parts, "!mapnext")
+				break
+			}
+			yielded++
+			if v != nil && v.IsAbsent() {
+				continue
+			}
+			ks, err := k.AsString()
+			if err != nil {
+				parts = append(parts, "!keystring")
+				break
+			}
+			cnt++
+			d := dumpLive(v, typed)
+			if lv, err := n.LookupByString(ks); err != nil || dumpLive(lv, typed) != d {
+				d += " !lookup"
+			}
+			parts = append(parts, "k"+lib.Hex(ks), d)
+		}
+		want := int64(cnt)
+		if typed {
+			want = yielded
+		}
+		if n.Length() != want {
+			parts = append(parts, "!len")
+		}
+		tok(sb, fmt.Sprintf("m%d", cnt))
+		for _, p := range parts {
+			tok(sb, p)
+		}
+	default:
+		tok(sb, lib.Dump(n))
+	}
+}
